@@ -28,7 +28,7 @@ func init() {
 			{ID: "C15-R5", Title: "sorts by the script-level ordering are stable", Floor: 2, Run: c15r5},
 			{ID: "C15-R6", Title: "mirrored Equals cases compute the same relation", Floor: 2, Run: c15r6},
 			{ID: "C15-R7", Title: "derived fields are updated by every mutator (shared with C16-R4)", Floor: 5, Run: c16r4},
-			{ID: "C15-R8", Title: "comparison functions are lexicographic where they compare two keys (shared with C05-R5)", Floor: 1, Run: brokenLexicographicLess},
+			{ID: "C15-R8", Title: "comparison functions are lexicographic where they compare two keys (shared with C05-R5)", Floor: 1, Run: lexicographicBoth},
 			{ID: "C15-R9", Title: "container equality tests key presence with a two-value lookup", Floor: 2, Run: equalityChecksPresence},
 		},
 	})
